@@ -252,7 +252,8 @@ Item(id, v) == Mk2("id", id, "v", S(v))
 Big == I("9223372036854775807")
 Base04 == M("n" :> I("1") @@ "big" :> Big @@ "min" :> I("-9223372036854775808") @@ "f" :> F("0.1")
             @@ "tiny" :> F("5e-324") @@ "huge" :> F("1.7976931348623157e+308") @@ "sum" :> F("0.30000000000000004")
-            @@ "list" :> L(<<Item(I("1"), "a"), Item(I("2147483648"), "b"), Item(F("2.5"), "c"), Item(Big, "d")>>)
+            @@ "list" :> L(<<Item(I("1"), "a"), Item(I("2147483648"), "b"), Item(F("2.5"), "c"), Item(Big, "d"), Item(F("2"), "e")>>)
+            @@ "w" :> F("3")        \* a whole-valued double: 3.0 is not the integer 3, in any format
             @@ "name" :> S("x"))
 Uppers04 == {
   Single("list", L(<<Mk2("$match", Single("id", I("2147483648")), "v", S("B"))>>)),
@@ -265,7 +266,11 @@ Uppers04 == {
   Single("min", I("-9223372036854775808")), Single("huge", F("1.7976931348623157e+308")),
   Single("n", I("2")), Single("f", F("0.10000000000000002")), Single("big", I("9223372036854775806")),
   Mk2("$repeat", I("2"), "i", S("$repeat")), Mk2("$match", Single("big", Big), "hit", True), Mk2("$match", Single("f", F("0.1")), "hit", True),
-  Mk2("$match", Single("n", F("1.5")), "hit", True)
+  Mk2("$match", Single("n", F("1.5")), "hit", True),
+  Single("w", F("3")), Single("w", I("3")), Single("n", F("1")),
+  Single("list", L(<<Mk2("$match", Single("id", F("2")), "v", S("E"))>>)), Single("list", L(<<Mk2("$match", Single("id", I("2")), "v", S("E"))>>)),
+  Single("list", L(<<Single("$delete", Single("id", F("1")))>>)),
+  Mk2("$match", Single("w", F("3")), "hit", True), Mk2("$match", Single("w", I("3")), "hit", True)
 }
 Thirds04 == { Single("$repeat", I("3")), Single("n", I("2")), Single("list", L(<<Single("$delete", Single("id", I("2147483648")))>>)) }
 Fmts04 == {"json", "yaml", "toml"}
